@@ -199,6 +199,7 @@ func WorkerMain(t *testing.T) {
 			fmt.Fprintf(os.Stderr, "BEGIN %d\n", idx)
 		}
 		sc := p.Gen(seed, idx, tier)
+		RunLogHash = 0
 		o := p.Run(t, sc)
 		if markStderr {
 			fmt.Fprintf(os.Stderr, "END %d\n", idx)
@@ -233,7 +234,11 @@ func WorkerMain(t *testing.T) {
 			res.Digests[idx] = o.Digest
 		}
 		if wantHashes {
-			res.RunHashes[idx] = o.Hash
+			h := o.Hash ^ RunLogHash*31 ^ hash64(o.Digest)*17 ^ uint64(len(o.Violations))<<56
+			for _, v := range o.Violations {
+				h ^= hash64(v.Sig)
+			}
+			res.RunHashes[idx] = h
 		}
 		if len(res.Samples) < 3 && (o.Nontrivial || idx == from) {
 			s := sc.Summary()
